@@ -345,9 +345,10 @@ class RadiDict:
         elif mismatch:
             return
 
-        if hooks_only and node[DATA] is not None:
+        if hooks_only:
             node[HOOKS] = None
-            return
+            if node[DATA] is not None:
+                return
 
         stack.reverse()
         assert node is stack[0]
@@ -364,7 +365,7 @@ class RadiDict:
                 node[IDX] = node[IDX].replace(key0_to_del, '')
                 del node[OFFSET + kidx]
                 self._try_merge(node)
-            if not (node[DATA] or node[IDX]):
+            if not (node[DATA] or node[IDX] or node[HOOKS]):
                 key0_to_del = node[KEY][0]
             else:
                 break
